@@ -90,6 +90,23 @@ def vscode_patterns(root):
             pats['_rules'] = pats.get('_rules', []) + [('macro', rep['macros'].get('begin'), rep['macros'].get('end'))]
         if 'registers' in rep:
             pats['register'] = rep['registers'].get('match')
+        def flat_tm(node, depth=0):
+            out = []
+            if depth > 6:
+                return out
+            for pt in node.get('patterns', []):
+                if 'include' in pt and pt['include'].startswith('#'):
+                    r = rep.get(pt['include'][1:], {})
+                    if 'match' in r:
+                        out.append((r['match'], r.get('name', '')))
+                    elif 'begin' in r:
+                        out.append((r['begin'], r.get('name', '') or 'begin'))
+                    out.extend(flat_tm(r, depth + 1))
+                elif 'match' in pt:
+                    out.append((pt['match'], pt.get('name', '')))
+            return out
+        if 'instructions' in rep:
+            pats['_operand_rules'] = flat_tm(rep['instructions'])
         d = find_named(rep.get('directives', {}), 'meta.directive')
         t = find_named(rep.get('directives', {}), 'storage.type')
         pats['directive'] = [x.get('begin') for x in d] + [x.get('match') for x in t]
@@ -109,6 +126,9 @@ def sublime_patterns(root):
         bad = z.testzip()
         if bad:
             problems.append(f'sublime: corrupt zip member {bad}')
+        dups = sorted({n for n in z.namelist() if z.namelist().count(n) > 1})
+        if dups:
+            problems.append(f'sublime: the package holds {dups[0]} more than once')
     except Exception as e:
         return pats, [f'sublime: not a zip archive: {e}']
     names = z.namelist()
@@ -131,6 +151,18 @@ def sublime_patterns(root):
                 ins = find_named(ctx.get('instructions', []), 'variable.function.instruction', 'scope')
                 mac = find_named(ctx.get('instructions', []), 'variable.function.macro', 'scope')
                 ends = [r.get('match') for r in ctx.get('pop_instruction_end', []) if r.get('pop')]
+                def flat_sub(items, depth=0):
+                    out = []
+                    if depth > 6:
+                        return out
+                    for it in items:
+                        if 'include' in it:
+                            out.extend(flat_sub(ctx.get(it['include'], []), depth + 1))
+                        elif 'match' in it and not it.get('pop'):
+                            out.append((it['match'], it.get('scope', '') or ('push' if 'push' in it else '')))
+                    return out
+                if ins and isinstance(ins[0].get('push'), list):
+                    pats['_operand_rules'] = flat_sub(ins[0]['push'])
                 if ins:
                     pats['instruction'] = ins[0]['match']
                     pats['_rules'] = pats.get('_rules', []) + [('instruction', ins[0]['match'], ends)]
@@ -189,6 +221,31 @@ def compound_problems(pats, ops):
     return out
 
 
+def operand_scope_problems(pats, mnemonic, registers):
+    """Inside the scope an instruction opens, the rules for operands compete: the leftmost match wins, ties go to the rule that
+    comes first. A register written as an operand (in lower and in upper case) has to come out as a register even when it also
+    looks like a number (AH, b1)."""
+    out = []
+    rules = pats.get('_operand_rules')
+    if not rules:
+        return out
+    for r in registers:
+        for spelled in (r, r.upper()):
+            line = f'  {mnemonic} {spelled}, 1'
+            start = 2 + len(mnemonic) + 1
+            best = None
+            for idx, (rx, scope) in enumerate(rules):
+                try:
+                    m = re.compile(rx).search(line, start)
+                except re.error:
+                    continue
+                if m and m.end() > m.start() and (best is None or m.start() < best[0]):
+                    best = (m.start(), idx, scope, m.group(0))
+            if best is None or best[0] != start or 'register' not in best[2] or best[3] != spelled:
+                out.append(f'the operand "{spelled}" of "{mnemonic} {spelled}, 1" is scoped {best[2] + " (" + best[3] + ")" if best else "by no rule"}, the vocabulary makes it a register')
+    return out
+
+
 def classify(pats, lead, w):
     """set of classes whose pattern matches exactly the probe in the line '  <lead><w> 1, 2'"""
     line = f'  {lead}{w} 1, 2'
@@ -227,20 +284,25 @@ def evaluate(v):
     try:
         isa = os.path.join(d, 'isa.yaml')
         open(isa, 'w').write(vocab_isa(v))
+        # an earlier revision of the same language (one more mnemonic, macro and register) is generated into the same directories
+        # first: regenerating after an edit of the definition must leave nothing of the old vocabulary behind
+        old_isa = os.path.join(d, 'isa_old.yaml')
+        open(old_isa, 'w').write(vocab_isa(dict(v, M=list(v['M']) + ['oldmn'], Q=list(v['Q']) + ['oldmac'], R=list(v['R']) + ['oldreg'])))
         def go():
             runner.import_repo()
             from bespokeasm.configgen.vscode import VSCodeConfigGenerator
             from bespokeasm.configgen.sublime import SublimeConfigGenerator
-            VSCodeConfigGenerator(isa, 0, os.path.join(d, 'vs'), None, None, None).generate()
             os.makedirs(os.path.join(d, 'sub'))
-            SublimeConfigGenerator(isa, 0, os.path.join(d, 'sub'), None, None, None).generate()
+            for f in (old_isa, isa):
+                VSCodeConfigGenerator(f, 0, os.path.join(d, 'vs'), None, None, None).generate()
+                SublimeConfigGenerator(f, 0, os.path.join(d, 'sub'), None, None, None).generate()
         st, msg, _ = runner.guarded(go, 30.0)
         if st != 'ok':
             return [f'generation failed: {st} {msg}']
         problems = []
         for target, (pats, probs) in (('vscode', vscode_patterns(os.path.join(d, 'vs'))), ('sublime', sublime_patterns(os.path.join(d, 'sub')))):
             problems.extend(probs)
-            for lead, w, cls in v['probes']:
+            for lead, w, cls in list(v['probes']) + [('', 'oldmn', 'none'), ('', 'oldmac', 'none'), ('', 'oldreg', 'none')]:
                 got = classify(pats, lead, w)
                 bad = [g for g in got if g.startswith('BADREGEX')]
                 if bad:
@@ -252,6 +314,7 @@ def evaluate(v):
             ops = {m: 'instruction' for m in v['M']}
             ops.update({q: 'macro' for q in v['Q']})
             problems.extend(f'{target}: {x}' for x in compound_problems(pats, ops))
+            problems.extend(f'{target}: {x}' for x in operand_scope_problems(pats, v['M'][0], v['R']))
         return problems
     finally:
         shutil.rmtree(d, ignore_errors=True)
